@@ -24,21 +24,12 @@ unexpected_cfgs = { level = "allow" }
 """
 LIB = """#![allow(dead_code, unused_imports, unused_variables, non_snake_case, unused_mut, unreachable_code, unreachable_patterns, clippy::all)]
 pub mod tok;
-pub mod vm;
 pub mod assembly;
-pub mod optimize_bytecode;
+pub mod folds;
 """
-
-OPT_ITEMS = [r'pub\(crate\) fn optimize\(', r'fn optimization_pass\(', r'fn peephole1_helper\(',
-             r'fn peephole2_helper\(', r'fn peephole3_helper\(', r'impl Instr \{']
-REQUIRED_METHODS = ['second_arg_is_top', 'first_arg_is_top_and_second_arg_is_offset_or_imm', 'dest_is_top',
-                    'replace_first_arg', 'replace_second_arg', 'replace_dest', 'is_push_imm_int', 'is_push_imm_float',
-                    'get_imm_int', 'get_imm_float', 'can_replace_second_arg_with_imm_int',
-                    'can_replace_second_arg_with_imm_float', 'replace_second_arg_imm_int', 'replace_second_arg_imm_float']
 
 INT_FOLDS = ['AddInt', 'SubInt', 'MulInt', 'DivInt', 'PowInt']
 FLOAT_FOLDS = ['AddFloat', 'SubFloat', 'MulFloat', 'DivFloat', 'PowFloat']
-ASM2VM_FOLD = None  # filled from instr_to_vminstr
 
 
 def fold_arm(op):
@@ -173,7 +164,7 @@ fn divfloatimm_same_error() {
     mod = ("// type substitution, see tok.rs\nuse crate::tok::{String, f64};\nuse crate::assembly::{Instr, Line, Reg, AbraInt};\n#[allow(non_camel_case_types)]\ntype pf64 = core::primitive::f64;\n"
            + folds + "\n#[cfg(kani)]\nmod u9h {\nuse super::*;\n" + harness + fh + "}\n")
     os.makedirs(os.path.join(dirpath, 'src'), exist_ok=True)
-    lib = LIB.replace("pub mod vm;\n", "").replace("pub mod optimize_bytecode;", "pub mod folds;")
+    lib = LIB
     for name, text in (('Cargo.toml', CARGO), ('src/lib.rs', lib), ('src/assembly.rs', '\n\n'.join(asm) + '\n'),
                        ('src/folds.rs', mod), ('src/tok.rs', open(os.path.join(HERE, 'tok.rs')).read())):
         with open(os.path.join(dirpath, name), 'w') as f:
